@@ -69,7 +69,7 @@ def stepSer (st : St) (cmd : List String) (got : String) : Option (St × Verdict
             failIf (status != "ok") "ok (Validate()==nil on a library-made bitmap)",
             failIf (!r.wf) "WF(repr)",
             failIf (!r.validate) "model-validate(repr)",
-            failIf (r.toBSet != s) ("abs(repr)=" ++ digest s)])
+            failIf (r.toBSetFast != s) ("abs(repr)=" ++ digest s)])
       | _ => some (st, some "ok <repr>")
   | ["size", x] =>
     match st.bm[x]? with
@@ -98,7 +98,7 @@ def stepSer (st : St) (cmd : List String) (got : String) : Option (St × Verdict
           let dec := decode serParams false bytes
           some (st, firstFail [
             failIf (agree != "true") "ToBytes/WriteTo/MarshalBinary/ToBase64 agree",
-            failIf (r.toBSet != s) "abs(repr)=state",
+            failIf (r.toBSetFast != s) "abs(repr)=state",
             failIf (enc != bytes) ("model-encode(repr)=bytes; model=" ++ hexOfBytes (enc.take 64)),
             failIf (r.serializedSize serParams != sz) "model-serializedSize=GetSerializedSizeInBytes",
             failIf (sz != bytes.length || n != bytes.length) "size==n==len",
@@ -107,7 +107,7 @@ def stepSer (st : St) (cmd : List String) (got : String) : Option (St × Verdict
              | some d => firstFail [failIf (d.set != s) "spec-decode(bytes)=set", failIf (d.consumed != bytes.length) "spec consumed all"]),
             (match dec with
              | .ok (r', m) => firstFail [failIf (m != bytes.length) "model-decode consumed all",
-                                        failIf (r'.toBSet != s) "model-decode(bytes)=set",
+                                        failIf (r'.toBSetFast != s) "model-decode(bytes)=set",
                                         failIf (!r'.wf) "WF(decode(encode r))"]
              | _ => some "model-decode accepts the written stream")])
         | _, _, _, _ => some (st, some "unparsable ser output")
@@ -175,7 +175,7 @@ def stepSer (st : St) (cmd : List String) (got : String) : Option (St × Verdict
         else if got != exp then some (st0, some exp)
         else if v && !r.wf then
           some (st0, some "Validate()==nil implies well-formed (model WF fails on this accepted input)")
-        else if v then some ({ st0 with bm := st0.bm.insert y r.toBSet }, none)
+        else if v then some ({ st0 with bm := st0.bm.insert y r.toBSetFast }, none)
         else some (st0, none)
   | _ => none
 
